@@ -375,6 +375,13 @@ func vcliC09Session(r *verifrt.R, c *verifrt.Case, fpMissing bool) {
 				if nv > 1<<24 {
 					nv = 1 << 24
 				}
+				if rng.IntN(4) == 0 {
+					// the same setting twice in one frame: legal, processed in order, the last
+					// value is the one that counts (RFC 9113 6.5.3)
+					first := vcliC09Pick[int64](rng, 0, nv+30000, nv/2, 1<<20, int64(rng.IntN(200000)))
+					ss = append(ss, h2ref.Setting{ID: h2ref.SettingInitialWindowSize, Val: uint32(first)})
+					r.Event("settings_frames_with_initial_window_size_twice", 1)
+				}
 				ss = append(ss, h2ref.Setting{ID: h2ref.SettingInitialWindowSize, Val: uint32(nv)})
 			}
 			if len(ss) == 0 || rng.IntN(3) == 0 {
